@@ -48,6 +48,7 @@ func defaultSeqs() map[string][]string {
 var (
 	unboundOnce sync.Once
 	unboundCmds []string // registered commands that no default keymap binds
+	allCmds     []string // every registered command
 )
 
 // unboundCommands lists (sorted) the commands a Shell registers but binds to no key by default:
@@ -74,8 +75,10 @@ func unboundCommands() []string {
 			if !bound[name] {
 				unboundCmds = append(unboundCmds, name)
 			}
+			allCmds = append(allCmds, name)
 		}
 		sort.Strings(unboundCmds)
+		sort.Strings(allCmds)
 	})
 	return unboundCmds
 }
@@ -97,6 +100,10 @@ type c01Case struct {
 	Editor  string      `json:"editor"`          // missing | ok | fail
 	Bound   []string    `json:"bound,omitempty"` // commands without a default binding, bound to C-x C-z a, b, ...
 	Hilite  bool        `json:"hilite,omitempty"` // the application sets a SyntaxHighlighter
+	Prompts []string    `json:"prompts,omitempty"` // further prompts the application sets: right, tooltip, secondary, transient
+	Srcs    int         `json:"srcs,omitempty"`    // further history sources added with History.Add
+	Del     string      `json:"del,omitempty"`     // what the application removes before a second call: first, last, middle, all
+	Plan2   []sess.Step `json:"plan2,omitempty"`   // the keys of that second call
 	Plan    []sess.Step `json:"plan"`
 	Exit    []sess.Step `json:"exit"`
 	ExitTag string      `json:"exit_tag"`
@@ -386,15 +393,52 @@ func c01Gen(r *rand.Rand, tier string, idx int) any {
 		c.Plan = limitDigits(genScript(r, c.Mode == "vi", n), 4)
 	}
 	c.Hilite = r.Intn(5) == 0
+	if r.Intn(4) == 0 {
+		for _, p := range []string{"right", "tooltip", "secondary", "transient"} {
+			if r.Intn(2) == 0 {
+				c.Prompts = append(c.Prompts, p)
+			}
+		}
+		if r.Intn(2) == 0 {
+			// a line that reaches the right-hand side of the terminal
+			at := r.Intn(len(c.Plan) + 1)
+			st := sess.Step{W: strings.Repeat(pick(r, []string{"x", "ab ", "é"}), 1+r.Intn(c.W+4)), Tag: "long-text"}
+			c.Plan = append(c.Plan[:at], append([]sess.Step{st}, c.Plan[at:]...)...)
+		}
+	}
+	if r.Intn(6) == 0 {
+		// several history sources, the user cycling through them, the application removing
+		// some between two calls
+		c.Srcs = 2 + r.Intn(3)
+		for i, n := 0, r.Intn(4); i < n; i++ {
+			at := r.Intn(len(c.Plan) + 1)
+			st := sess.Step{W: pick(r, []string{"\x12\x12\x07", "\x12\x12\x12\x07", "\x12\x12"}), Tag: "next-history-source"}
+			c.Plan = append(c.Plan[:at], append([]sess.Step{st}, c.Plan[at:]...)...)
+		}
+		c.Del = pick(r, []string{"first", "last", "middle", "all", "first", "all"})
+		c.Plan2 = limitDigits(genScript(r, c.Mode == "vi", 1+r.Intn(6)), 2)
+	}
 	if ub := unboundCommands(); len(ub) > 0 && r.Intn(3) == 0 {
 		// commands no default keymap binds: a user configuration can, so they are bound here
 		for i, n := 0, 1+r.Intn(6); i < n; i++ {
-			c.Bound = append(c.Bound, pick(r, ub))
+			if r.Intn(3) == 0 {
+				// (or any command at all: some default sequences, like Meta-Control ones, are
+				// out of reach of a terminal, and users rebind)
+				c.Bound = append(c.Bound, pick(r, allCmds))
+			} else {
+				c.Bound = append(c.Bound, pick(r, ub))
+			}
 		}
 		for i, n := 0, 1+r.Intn(2*len(c.Bound)); i < n; i++ {
 			st := sess.Step{W: c01Probe + string(rune('a'+r.Intn(len(c.Bound)))), Tag: "unbound-by-default"}
 			at := r.Intn(len(c.Plan) + 1)
 			c.Plan = append(c.Plan[:at], append([]sess.Step{st}, c.Plan[at:]...)...)
+			if c.Mode == "emacs" && r.Intn(4) == 0 {
+				// with a negative, zero or small numeric argument
+				arg := sess.Step{W: pick(r, []string{"\x1b-", "\x1b0", "\x1b-\x1b2", "\x1b3", "\x1b-\x1b9"}), Tag: "numeric-arg"}
+				c.Plan = append(c.Plan[:at], append([]sess.Step{arg}, c.Plan[at:]...)...)
+				at++
+			}
 			if r.Intn(3) == 0 {
 				// some of them read an argument key
 				arg := sess.Step{W: string(rune(32 + r.Intn(95))), Tag: "arg"}
@@ -485,6 +529,26 @@ func c01Run(env *fw.Env, raw json.RawMessage) fw.Outcome {
 				s.Sh.Config.Bind(km, c01Probe+string(rune('a'+i)), name, false)
 			}
 		}
+		for _, p := range c.Prompts {
+			switch p {
+			case "right":
+				s.Sh.Prompt.Right(func() string { return "\x1b[2m[r]\x1b[0m" })
+			case "tooltip":
+				s.Sh.Prompt.Tooltip(func(word string) string { return "<" + word + ">" })
+			case "secondary":
+				s.Sh.Prompt.Secondary(func() string { return ".. " })
+			case "transient":
+				s.Sh.Prompt.Transient(func() string { return "$ " })
+			}
+		}
+		for i := 0; i < c.Srcs; i++ {
+			// (the first one replaces the default source)
+			h := readline.NewInMemoryHistory()
+			for _, l := range c.Hist {
+				h.Write(l)
+			}
+			s.Sh.History.Add(fmt.Sprintf("src%d", i+1), h)
+		}
 		if c.Hilite {
 			// an application's highlighter: colours every other word, as shells do
 			s.Sh.SyntaxHighlighter = func(line []rune) string {
@@ -522,6 +586,30 @@ func c01Run(env *fw.Env, raw json.RawMessage) fw.Outcome {
 	}
 	ctx := fmt.Sprintf("mode=%s exit=%s bound-for-the-case=%v", c.Mode, c.ExitTag, c.Bound)
 	ok := stdFailures(&o, res, ctx)
+	if ok && res.Returned && c.Del != "" {
+		// the application removes history sources between two calls
+		names := []string{}
+		for i := 0; i < c.Srcs; i++ {
+			names = append(names, fmt.Sprintf("src%d", i+1))
+		}
+		switch c.Del {
+		case "first":
+			s.Sh.History.Delete(names[0])
+		case "last":
+			s.Sh.History.Delete(names[len(names)-1])
+		case "middle":
+			s.Sh.History.Delete(names[1])
+		case "all":
+			s.Sh.History.Delete()
+			s.Sh.History.Add("fresh", readline.NewInMemoryHistory())
+		}
+		res2 := s.Call(c.Plan2, steps("\r"))
+		o.O.Events += len(res2.Waits) + 1
+		ok = stdFailures(&o, res2, ctx+" second-call-after-History.Delete("+c.Del+")")
+		if ok && res2.Returned {
+			o.Add("second_calls_after_removing_history_sources", 1)
+		}
+	}
 	if ok {
 		switch {
 		case res.Returned:
